@@ -73,7 +73,6 @@ Meta(g, ms, buf, t) ==
 -----------------------------------------------------------------------------
 (* Declarative statement on the transcription                              *)
 
-Abs(x) == IF x < 0 THEN -x ELSE x
 Truncated(M, buf) == M.buffers # <<buf, buf, buf, buf>>
 
 \* position error (in lattice units) of the content cut out for the k-th tile of meta tile M: the crop origin
